@@ -267,6 +267,18 @@ static std::string make_mapbomb(const std::string& b, size_t idx, int k, size_t 
     return enc;
 }
 
+// a valid one-block file whose block holds n address-event entries that differ in their address only and all carry the same transport flags:
+// reading it must take time proportional to its size (a hash function that ignores what the entries differ in makes it quadratic)
+static std::string make_manyaec(size_t n, int with_flags) {
+    Node root = parse_exact(seeds::small()); Node blk = root.kids[2].kids[0]; std::vector<Node> kept;
+    for (size_t i = 0; i + 1 < blk.kids.size(); i += 2) if (blk.kids[i].is_uint() && blk.kids[i].arg == 0) { kept.push_back(blk.kids[i]); kept.push_back(blk.kids[i + 1]); }   // block preamble only
+    std::vector<Node> ips, aecs; for (size_t i = 0; i < n; i++) { std::string a4(4, 0); a4[0] = 10; a4[1] = (char)(i >> 16); a4[2] = (char)(i >> 8); a4[3] = (char)i; ips.push_back(mk_bstr(a4));
+        std::vector<Node> kv = {mk_uint(0), mk_uint(1), mk_uint(2), mk_uint(i)}; if (with_flags) { kv.push_back(mk_uint(3)); kv.push_back(mk_uint(2)); } kv.push_back(mk_uint(4)); kv.push_back(mk_uint(1 + i % 7)); aecs.push_back(mk_map(kv)); }
+    kept.push_back(mk_uint(2)); kept.push_back(mk_map({mk_uint(0), mk_array(ips)})); kept.push_back(mk_uint(4)); kept.push_back(mk_array(aecs));
+    blk.kids = kept; blk.indef = false; blk.arg = kept.size() / 2; blk.ai = min_ai(blk.arg); root.kids[2].kids = {blk}; root.kids[2].indef = true;
+    return encode(root);
+}
+
 int main(int argc, char** argv) {
     Args a = Args::parse(argc, argv);
     g_dir = scratch_dir();
@@ -294,6 +306,12 @@ int main(int argc, char** argv) {
             if (indef) { in1.indef = true; in3.indef = true; } Node val = mk_array({in1, in2, in3}); if (indef) val.indef = true;
             root.kids[1].kids.insert(root.kids[1].kids.end(), {mk_int(-10), val}); for (auto& blk : root.kids[2].kids) blk.kids.insert(blk.kids.end(), {mk_int(-10), val});
             seeds.push_back(mk_seed(std::string("small-unknown-nested-tail-") + (indef ? "indefinite" : "definite"), encode(root))); }
+        // ... and with multi-byte SCALAR values (8-byte unsigned, 4-byte negative, double, tagged 4-byte unsigned, 2-byte simple): a cut inside the argument bytes of a skipped head
+        { Node root = parse_exact(seeds::small()); Node u8 = mk_uint(0x0102030405060708ULL), n4 = mk_nint(0x01020304), f8 = mk_float(27, 0x3ff199999999999aULL), tg = mk_tag(0x010203, mk_uint(0x0a0b0c0d)), sv = mk_simple(200);
+          root.kids[2].indef = true; int k = 0; for (const Node& val : {u8, n4, f8, tg, sv}) { root.kids[1].kids.insert(root.kids[1].kids.end(), {mk_int(-10 - k), val}); for (auto& blk : root.kids[2].kids) blk.kids.insert(blk.kids.end(), {mk_int(-10 - k), val}); k++; }
+          seeds.push_back(mk_seed("small-unknown-scalar-tails", encode(root)));
+          // the same members behind a 70000-byte unknown string, so that the scalars lie behind the first window refill and one block ends near it
+          Node r2 = root; r2.kids[2].kids[0].kids.insert(r2.kids[2].kids[0].kids.begin(), {mk_int(-30), mk_bstr(std::string(W - r2.kids[2].kids[0].begin - 40, '\x55'))}); seeds.push_back(mk_seed("mid-unknown-scalar-tails", encode(r2))); }
         // files from another encoder: every array and map in indefinite-length form, padded so that the BREAK of one chosen array lies exactly on a multiple of the
         // decoder window (a break that is the first byte of a refill). One file per chosen array (block array, tables, record arrays, index lists ...).
         { seeds::Opt o0; o0.sets = {seeds::PS(10000, 1000000, 0)}; o0.blocks = 3; o0.per_block = 2;
@@ -485,6 +503,7 @@ int main(int argc, char** argv) {
         for (int k = 0; k < 5; k++) for (size_t d : {(size_t)10, (size_t)100, (size_t)1000, (size_t)10000, (size_t)100000, (size_t)(T ? 1000000 : 200000)}) tasks.push_back({6, (size_t)k, d, 0}); // raw bombs
         for (size_t k = 0; k <= 3; k++) tasks.push_back({7, 0, k, 0});                                             // k*65535-byte files ending inside a string
         for (size_t k = 0; k < 4; k++) tasks.push_back({8, 0, k, 0});                                              // length / count fields close to 2^64, 2^63, 2^32 in skipped and read positions
+        for (size_t wf = 0; wf < 2; wf++) tasks.push_back({10, wf, (size_t)(T ? 200000 : 100000), 0});                                  // tens of thousands of address events that differ in one member only (time must stay proportional to the input)
         tasks.push_back({9, 0, 0, 0});                                                                              // every string of the small seed re-encoded as a chunked string whose first chunk declares a huge length
         static const unsigned char A64[] = {0x00, 0x01, 0x17, 0x18, 0x19, 0x1a, 0x1b, 0x1c, 0x1f, 0x20, 0x37, 0x38, 0x3b, 0x3f, 0x40, 0x41, 0x57, 0x58, 0x59, 0x5a, 0x5b, 0x5f, 0x60, 0x61, 0x78, 0x7b, 0x7f, 0x80, 0x81, 0x82, 0x98, 0x9b, 0x9f,
                                             0xa0, 0xa1, 0xb8, 0xbb, 0xbf, 0xc0, 0xc1, 0xd8, 0xdb, 0xdf, 0xe0, 0xf4, 0xf5, 0xf6, 0xf7, 0xf8, 0xf9, 0xfa, 0xfb, 0xfc, 0xff, 0x02, 0x03, 0x05, 0x0a, 0x2a, 0x43, 0x63, 0x83, 0xa2, 0xc2};
@@ -506,6 +525,7 @@ int main(int argc, char** argv) {
                 if (d.rfind("bomb", 0) == 0) { int k = atoi(d.c_str() + 4); size_t pos = d.find("-d"); size_t dd = strtoull(d.c_str() + pos + 2, nullptr, 10); bytes = bomb(k, dd); }
                 else if (d.rfind("mapbomb", 0) == 0) { int k = d[7] - '0'; size_t pos = d.find("-d"); size_t dd = strtoull(d.c_str() + pos + 2, nullptr, 10); size_t p2 = d.find('-', pos + 2); size_t p3 = d.rfind("-n"); std::string sn = d.substr(p2 + 1, p3 - p2 - 1); size_t idx = strtoull(d.c_str() + p3 + 2, nullptr, 10);
                     for (auto& sd : seeds) if (sd.first == sn) bytes = make_mapbomb(sd.second, idx, k, dd); if (bytes.empty()) return done(2); }
+                else if (d.rfind("manyaec", 0) == 0) { int wf = d[7] - '0'; size_t pos = d.find("-n"); bytes = make_manyaec(strtoull(d.c_str() + pos + 2, nullptr, 10), wf); }
                 else if (d.rfind("exactk", 0) == 0) { size_t k = strtoull(d.c_str() + 6, nullptr, 10); std::string f = seeds::exact((k ? k : 1) * W + 50); bytes = f.substr(0, k * W); }
                 else return done(2);
             } else bytes = unhex(hx);
@@ -520,6 +540,8 @@ int main(int argc, char** argv) {
             const Task& t = tasks[ti];
             const std::string& b = seeds[t.fam <= 3 ? t.seed : 0].second;
             switch (t.fam) {
+            case 10: { std::string f = make_manyaec(t.lo, (int)t.seed); try { ref::read_file(f); } catch (std::exception& e) { R.violation("mutate|harness|manyaec", std::string("generated file is not valid: ") + e.what(), "desc=manyaec"); break; }
+                       run_one("manyaec" + std::to_string(t.seed) + "-n" + std::to_string(t.lo), f, R); break; }
             case 0: for (size_t n = t.lo; n < t.hi; n++) run_one("trunc-" + seeds[t.seed].first + "-" + std::to_string(n), b.substr(0, n), R); break;
             case 1: for (size_t i = t.lo; i < t.hi; i++) { std::string m = b; for (int v = 0; v < 256; v++) { if ((unsigned char)b[i] == v) continue; if (!T && t.seed != 0 && !memchr(A64, v, sizeof A64)) continue; m[i] = (char)v; run_one("byte-" + seeds[t.seed].first + "-" + std::to_string(i) + "=" + std::to_string(v), m, R); } } break;
             case 2: {
